@@ -24,6 +24,7 @@ Definition confirmed (de : depenv) (seg : list ev) : Prop :=
     seg = EResolve (d_id de) true :: fails ++ ok_run (d_id de) k n /\
     d_resolve de = true /\
     nth_error (d_origins de) (N.to_nat k) = Some x /\ n <= o_budget x /\
+    (exists rest, o_script x = repeat (RCode 202) (N.to_nat n) ++ RCode 200 :: rest) /\
     (forall y, In y fails -> exists o r, y = ERepl (d_id de) o r /\ o < k /\ is200 r = false).
 
 (* what one origin does with a poll, as a function of its script and budget only *)
@@ -207,22 +208,23 @@ Lemma poll_true d o os t :
   exists fails k n x,
     t = fails ++ ok_run d (o + k) n /\
     nth_error os (N.to_nat k) = Some x /\ n <= o_budget x /\
+    (exists rest, o_script x = repeat (RCode 202) (N.to_nat n) ++ RCode 200 :: rest) /\
     (forall y, In y fails -> exists o' r, y = ERepl d o' r /\ o <= o' /\ o' < o + k /\ is200 r = false).
 Proof.
   revert o t. induction os as [|y os IH]; intros o t; cbn [poll]; [discriminate|].
   destruct (poll_origin d o (o_script y) (o_budget y)) as [t1 p] eqn:P.
   destruct p as [b|].
   - intros H. inversion H. subst.
-    destruct (poll_origin_true _ _ _ _ _ P) as [n [rest [-> [Hn _]]]].
+    destruct (poll_origin_true _ _ _ _ _ P) as [n [rest [-> [Hn Hsc]]]].
     exists [], 0, n, y. rewrite N.add_0_r. cbn [app N.to_nat nth_error].
-    split; [reflexivity|]. split; [reflexivity|]. split; [assumption|]. intros ? [].
+    split; [reflexivity|]. split; [reflexivity|]. split; [assumption|]. split; [exists rest; exact Hsc|]. intros ? [].
   - destruct (poll d (o + 1) os) as [t2 b] eqn:P2. intros H. inversion H. subst.
-    destruct (IH _ _ P2) as [fails [k [n [x [-> [Hx [Hn Hf]]]]]]].
+    destruct (IH _ _ P2) as [fails [k [n [x [-> [Hx [Hn [Hsc Hf]]]]]]]].
     exists (t1 ++ fails), (k + 1), n, x. rewrite app_assoc.
     replace (o + (k + 1)) with (o + 1 + k) by lia.
     split; [reflexivity|]. split.
     { replace (N.to_nat (k + 1)) with (S (N.to_nat k)) by lia. exact Hx. }
-    split; [assumption|]. intros z Hz. apply in_app_or in Hz as [Hz|Hz].
+    split; [assumption|]. split; [exact Hsc|]. intros z Hz. apply in_app_or in Hz as [Hz|Hz].
     + pose proof (poll_origin_events d o (o_script y) (o_budget y) z) as Q. rewrite P in Q.
       destruct (Q Hz) as [r ->]. exists o, r. split; [reflexivity|]. split; [lia|]. split; [lia|].
       assert (PN : PNext <> PDone true) by discriminate.
@@ -295,9 +297,9 @@ Lemma replicate_true de t : replicate de = (t, true) -> confirmed de t.
 Proof.
   unfold replicate. destruct (d_resolve de) eqn:R; [|discriminate].
   destruct (poll (d_id de) 0 (d_origins de)) as [t' b] eqn:P. intros H. inversion H. subst.
-  destruct (poll_true _ _ _ _ P) as [fails [k [n [x [-> [Hx [Hn Hf]]]]]]].
+  destruct (poll_true _ _ _ _ P) as [fails [k [n [x [-> [Hx [Hn [Hsc Hf]]]]]]]].
   exists fails, k, n, x. rewrite N.add_0_l. split; [reflexivity|]. split; [exact R|].
-  split; [assumption|]. split; [assumption|].
+  split; [assumption|]. split; [assumption|]. split; [exact Hsc|].
   intros y Hy. destruct (Hf y Hy) as [o' [r [-> [_ [H2 H3]]]]]. exists o', r.
   split; [reflexivity|]. split; [lia|assumption].
 Qed.
@@ -440,7 +442,7 @@ Qed.
 Lemma confirmed_events de seg x :
   confirmed de seg -> In x seg -> x = EResolve (d_id de) true \/ exists o r, x = ERepl (d_id de) o r.
 Proof.
-  intros [fails [k [n [y [-> [_ [_ [_ Hf]]]]]]]] [<-|Hx]; [left; reflexivity|]. right.
+  intros [fails [k [n [y [-> [_ [_ [_ [_ Hf]]]]]]]]] [<-|Hx]; [left; reflexivity|]. right.
   apply in_app_or in Hx as [Hx|Hx].
   - destruct (Hf x Hx) as [o [r [-> _]]]. eauto.
   - unfold ok_run in Hx. apply in_app_or in Hx as [Hx|[<-|[]]]; [|eauto].
@@ -777,4 +779,81 @@ Lemma served_200 hs n :
 Proof.
   unfold served. rewrite nth_error_map. destruct (nth_error hs n) as [h|]; [|discriminate].
   cbn. intros H. inversion H. exists h. split; [reflexivity|]. apply handler_200. assumption.
+Qed.
+
+(* ------------------------------------------------------------------ origins that run the handler *)
+
+(* every origin of the environment answers from handler states *)
+Definition handler_env (e : env) : Prop :=
+  forall de x, In de (e_deps e) -> In x (d_origins de) -> exists hs, o_script x = served hs.
+
+Lemma served_prefix hs n rest :
+  served hs = repeat (RCode 202) n ++ RCode 200 :: rest ->
+  exists h, nth_error hs n = Some h /\ uploaded h = true /\
+            forall j h', (j < n)%nat -> nth_error hs j = Some h' -> handler h' = 202.
+Proof.
+  revert hs. induction n as [|n IH]; intros hs; cbn [repeat app].
+  - destruct hs as [|h hs]; cbn; [discriminate|]. intros H. inversion H. exists h.
+    split; [reflexivity|]. split; [apply handler_200; assumption|]. intros; lia.
+  - destruct hs as [|h hs]; cbn; [discriminate|]. intros H. injection H as H1 H2.
+    destruct (IH hs H2) as [h0 [H3 [H4 H5]]]. exists h0. split; [exact H3|]. split; [exact H4|].
+    intros [|j] h' Hj Hn; cbn in Hn.
+    + inversion Hn. subst. assumption.
+    + apply (H5 j); [lia|assumption].
+Qed.
+
+(* C33_order_uploaded: with such origins, before the put every dependency was, during one of the
+   recorded requests, in the cache of an origin that uploaded it to the remote cluster and had
+   the upload accepted; all earlier answers of that origin were "still fetching" *)
+Lemma order_uploaded e pre r post :
+  handler_env e -> trace e = pre ++ EPut r :: post ->
+  forall de, In de (e_deps e) ->
+  exists k x hs n h,
+    nth_error (d_origins de) (N.to_nat k) = Some x /\ o_script x = served hs /\
+    nth_error hs n = Some h /\ uploaded h = true /\
+    (forall j h', (j < n)%nat -> nth_error hs j = Some h' -> handler h' = 202) /\
+    In (ERepl (d_id de) k (RCode 200)) pre.
+Proof.
+  intros He H de Hde. destruct (put_shape _ _ _ _ H) as [_ [_ [segs [-> [F _]]]]].
+  assert (G : exists seg, In seg segs /\ confirmed de seg).
+  { clear H He. revert Hde. induction F as [|a s ds ss Ha F IH]; intros Hde; [destruct Hde|].
+    destruct Hde as [->|Hde]; [exists s; split; [left; reflexivity|exact Ha]|].
+    destruct (IH Hde) as [seg [H1 H2]]. exists seg. split; [right; exact H1|exact H2]. }
+  destruct G as [seg [Hs [fails [k [n [x [-> [_ [Hx [_ [[rest Hsc] _]]]]]]]]]]].
+  destruct (He de x Hde (nth_error_In _ _ Hx)) as [hs Hhs].
+  rewrite Hhs in Hsc. destruct (served_prefix _ _ _ Hsc) as [h [H1 [H2 H3]]].
+  exists k, x, hs, (N.to_nat n), h. repeat split; try assumption.
+  right. right. apply in_concat. eexists. split; [exact Hs|]. right. apply in_or_app. right.
+  unfold ok_run. apply in_or_app. right. left. reflexivity.
+Qed.
+
+(* ------------------------------------------------------------------ scripts versus answer functions *)
+
+(* the same loop over an origin that answers its i-th request with f i (no end of script) *)
+Fixpoint poll_fn (d o : N) (f : nat -> resp) (i : nat) (bud : nat) : list ev * pres :=
+  match classify (f i) with
+  | QOk => ([ERepl d o (f i)], PDone true)
+  | QNet => ([ERepl d o (f i)], PNext)
+  | QStatus c =>
+      if c =? 202 then
+        match bud with
+        | O => ([ERepl d o (f i)], PNext)
+        | S b => let '(t, p) := poll_fn d o f (S i) b in (ERepl d o (f i) :: t, p)
+        end
+      else if c <? 500 then ([ERepl d o (f i)], PDone false)
+      else ([ERepl d o (f i)], PNext)
+  end.
+
+(* finite scripts lose nothing: the loop reads at most budget + 1 answers, so it behaves on any
+   answer function as on that prefix (and never reaches the end of such a script) *)
+Lemma poll_fn_script d o f i bud :
+  poll_fn d o f i bud = poll_origin d o (map f (seq i (S bud))) (N.of_nat bud).
+Proof.
+  revert i. induction bud as [|b IH]; intros i.
+  - cbn [poll_fn seq map poll_origin]. destruct (classify (f i)) as [| |c]; reflexivity.
+  - cbn [poll_fn]. change (map f (seq i (S (S b)))) with (f i :: map f (seq (S i) (S b))).
+    cbn [poll_origin]. destruct (classify (f i)) as [| |c]; try reflexivity.
+    destruct (c =? 202); [|reflexivity].
+    destruct (N.of_nat (S b) =? 0) eqn:E; [apply N.eqb_eq in E; lia|].
+    replace (N.of_nat (S b) - 1) with (N.of_nat b) by lia. rewrite IH. reflexivity.
 Qed.
